@@ -165,6 +165,8 @@ func (jr *jpegReader) nextMarker() bool {
 			jr.marker = markerType(jr.buf[1])
 			return true
 		}
+		// A marker outside of an image (before the first SOI or after the last EOI): skip it.
+		jr.err = jr.discard(1)
 	}
 	return false
 }
